@@ -50,8 +50,14 @@ func rebuildBody(b *types.WorkObject, txs, etxs types.Transactions) {
 // zone validation does not derive); they are exercised and counted but never yield a verdict.
 var Mutations = []Mutation{
 	// ---- C07: declared results of execution
-	{"gas-used+1", "C07", true, func(b *types.WorkObject, e *byzEnv) bool { b.Header().SetGasUsed(b.Header().GasUsed() + 1); return true }},
-	{"evm-root", "C07", true, func(b *types.WorkObject, e *byzEnv) bool { b.Header().SetEVMRoot(flip(b.Header().EVMRoot())); return true }},
+	{"gas-used+1", "C07", true, func(b *types.WorkObject, e *byzEnv) bool {
+		b.Header().SetGasUsed(b.Header().GasUsed() + 1)
+		return true
+	}},
+	{"evm-root", "C07", true, func(b *types.WorkObject, e *byzEnv) bool {
+		b.Header().SetEVMRoot(flip(b.Header().EVMRoot()))
+		return true
+	}},
 	{"utxo-root", "C07", true, func(b *types.WorkObject, e *byzEnv) bool {
 		b.Header().SetUTXORoot(flip(b.Header().UTXORoot()))
 		return true
@@ -68,7 +74,10 @@ var Mutations = []Mutation{
 		b.Header().SetOutboundEtxHash(flip(b.Header().OutboundEtxHash()))
 		return true
 	}},
-	{"tx-hash", "C07", true, func(b *types.WorkObject, e *byzEnv) bool { b.Header().SetTxHash(flip(b.Header().TxHash())); return true }},
+	{"tx-hash", "C07", true, func(b *types.WorkObject, e *byzEnv) bool {
+		b.Header().SetTxHash(flip(b.Header().TxHash()))
+		return true
+	}},
 	{"state-used+1", "C07", true, func(b *types.WorkObject, e *byzEnv) bool {
 		b.Header().SetStateUsed(b.Header().StateUsed() + 1)
 		return true
@@ -323,14 +332,14 @@ var Mutations = []Mutation{
 
 // ByzOutcome reports what the node did with a rewritten block.
 type ByzOutcome struct {
-	Mutation string
-	Applied  bool
-	Accepted bool // appended AND became head with state executed
-	Appended bool
-	Hash     common.Hash
+	Mutation   string
+	Applied    bool
+	Accepted   bool // appended AND became head with state executed
+	Appended   bool
+	Hash       common.Hash
 	HonestHash common.Hash // hash of the honest candidate the rewrite started from (sealed)
-	Err      string
-	TraceNote string // non-empty: the rejected block left this trace in chain state
+	Err        string
+	TraceNote  string // non-empty: the rejected block left this trace in chain state
 }
 
 // Byzantine builds an honest zone-order candidate on the node's head, applies mutation m, re-seals
